@@ -45,6 +45,12 @@ func ids(x *h.X) []uint32 {
 	return tk.IDs[:1]
 }
 
+// thorough tier: more lengths around block boundaries, more spare capacities, every key ID of tk.IDs
+var (
+	thoroughLens   = []int{0, 1, 15, 16, 17, 33, 64, 65}
+	thoroughSpares = []int{0, 1, 7, 64, 300}
+)
+
 func pickSource(x *h.X) (*source, int) {
 	src := allSources[x.Choose("source", len(allSources))]
 	x.Label(src.name)
@@ -103,9 +109,15 @@ func primitivesSection(x *h.X) {
 	x.NonTrivial()
 	x.Outcome(fmt.Sprintf("%v/legacy=%v", src.class, src.legacy))
 	d := &driver{t: t, p: before, tw: twin, legacy: src.legacy, lens: ref.GuardLens, spares: ref.GuardSpares, adj: []int{adj}, slow: src.slow}
-	if src.slow && !x.Thorough() {
+	if x.Thorough() {
+		d.lens, d.spares = thoroughLens, thoroughSpares
+	}
+	if src.slow {
+		// SLH-DSA signing costs 40 ms .. seconds: every layout, two lengths
 		d.lens = []int{0, 33}
-		d.spares = []int{1, 64}
+		if !x.Thorough() {
+			d.spares = []int{1, 64}
+		}
 	}
 	d.run()
 	t.flipAll()
